@@ -278,3 +278,5 @@ META = {
     "outside_claim": ["types deeper than the universe's", "multisets of more than 3 members"],
     "assumptions": ["normal form as listed in the statement; Optional[None] (an all-null field) is not excluded by it"],
 }
+if isinstance(META.get("bounds"), dict) and "quick" in META["bounds"]:
+    META["bounds"]["quick"] += '; registry merge of two simplified fields (31 x 31 subsets of 5 atoms x 2 wrappings); two rounds of registration + merge on one registry (15^3 key sets x 2 x 2)'
